@@ -88,6 +88,47 @@ def header_counts(h):
     return nb, ncb, nsetup
 
 
+def mode_histories(v, docs, n):
+    """'presence of support code under each mode' at the place a user observes it: the output tree of the command line.  The
+    same tree is generated with --no-dynamic-binding first and in generate mode afterwards (the .ui is byte-identical between the
+    two by this very property): the generate run must leave the header of a generation into an empty tree, the .ui must not
+    differ, and the reject run must not have produced a header."""
+    import os
+    import subprocess
+    wd = common.workdir("c14hist")
+    env = dict(os.environ, NO_COLOR="1")
+    cmd = [common.CLI, "generate-ui", "--foreign-types", common.METATYPES, "--foreign-types", common.VF_TYPES]
+    done = 0
+    for k, d in enumerate(docs[:n]):
+        hist, fresh = os.path.join(wd, "h%d" % k), os.path.join(wd, "f%d" % k)
+        for x in (hist, fresh):
+            os.makedirs(x)
+            open(os.path.join(x, "MyType.qml"), "w").write(d.source)
+        p1 = subprocess.run(cmd + ["--no-dynamic-binding", "MyType.qml"], cwd=hist, capture_output=True, env=env, timeout=120)
+        if p1.returncode:
+            continue    # not a constant-only document after all
+        header_after_reject = os.path.exists(os.path.join(hist, "uisupport_mytype.h"))
+        ui1 = open(os.path.join(hist, "mytype.ui"), "rb").read()
+        p2 = subprocess.run(cmd + ["MyType.qml"], cwd=hist, capture_output=True, env=env, timeout=120)
+        p3 = subprocess.run(cmd + ["MyType.qml"], cwd=fresh, capture_output=True, env=env, timeout=120)
+        if p2.returncode or p3.returncode:
+            v.violation("history:generate-refuses", "accepted with --no-dynamic-binding but refused in generate mode",
+                        {"qml": d.source, "stderr": (p2.stderr + p3.stderr).decode("utf-8", "replace")[-2000:]})
+            continue
+        done += 1
+        rp = {"qml": d.source, "history": ["generate-ui --no-dynamic-binding", "generate-ui"]}
+        if header_after_reject:
+            v.violation("history:header-outside-generate", "--no-dynamic-binding wrote a support header", rp)
+        elif not os.path.exists(os.path.join(hist, "uisupport_mytype.h")):
+            v.violation("history:no-header-in-generate", "generate mode over the outputs of a --no-dynamic-binding run left no support "
+                        "header (a generation into an empty tree writes one)", rp)
+        elif open(os.path.join(hist, "uisupport_mytype.h"), "rb").read() != open(os.path.join(fresh, "uisupport_mytype.h"), "rb").read():
+            v.violation("history:header-differs", "support header differs from a generation into an empty tree", rp)
+        elif not (ui1 == open(os.path.join(hist, "mytype.ui"), "rb").read() == open(os.path.join(fresh, "mytype.ui"), "rb").read()):
+            v.violation("history:ui-differs", ".ui bytes differ between the two modes on disk", rp)
+    return done
+
+
 def run(tier, seed, replay=None):
     v = common.Verdict("C14", tier, seed)
     rng = common.rng_for(seed, "C14", tier)
@@ -165,8 +206,11 @@ def run(tier, seed, replay=None):
         if len(samples) < 4 and (d.fault or "+" in d.variant) and len(d.source) < 1200 and key[:2] not in [s["key"][:2] for s in samples]:
             samples.append({"key": list(key), "qml": d.source, "accepted": {"generate": g_acc, "reject": r_acc},
                             "errors": {"generate": sorted(errset(g))[:3], "reject": sorted(errset(rj))[:3], "omit": sorted(errset(om))[:3]}})
+    n_hist = 0 if replay else mode_histories(v, [d for d in docs if getattr(d, "variant", "") == "constant-only" and not d.fault],
+                                             12 if tier == "quick" else 120)
+    stats["mode_histories_on_disk"] = n_hist
     return v.finish(
-        evaluations=len(docs), distinct_nontrivial=len(distinct),
+        evaluations=len(docs) + n_hist, distinct_nontrivial=len(distinct),
         rule="constant-only, dynamic, callback-carrying, warning-only and single-fault documents, each translated in the three "
              "modes by the real library; distinct = distinct (tree shape, variant, fault kind, acceptance per mode, error counts)",
         samples=samples, relations_observed=stats, documents_by_variant=variants, floor=100,
